@@ -131,7 +131,7 @@ static void modeStructure(Dec &d, Case &c) {
     if (!ob.parsed) { VF_FAIL(c, "C18:structure:valid-refused:res" + num(ob.parseRes), "well-formed file refused res=" + num(ob.parseRes) + ": " + c.desc); return; }
     VF_CHECK(c, ob.signedLen == sigOffset, "C18:signed-range:length", "reported signed length " + num((long long)ob.signedLen) + " but the signature record starts at offset " + num((long long)sigOffset) + ": " + c.desc);
     bool consConfigured = t.where != 2 && !t.cons.empty(); bool consOk = consConfigured; for (auto &k : t.cons) if (!k.matches) consOk = false;
-    if (t.where == 3 && t.cons.empty()) { c.cls("constraints:empty-file-list-over-context"); return; } // which list applies when the file's own list is empty is not stated
+    if (t.where == 3 && t.cons.empty()) c.cls("constraints:empty-file-list-over-context"); // the file's own (empty) list replaces the context's: no constraint is in force, and at least one is required
     bool expectTrusted = t.range == 0 && chainOk(t) && consOk;
     c.cls(expectTrusted ? "expect:trusted" : "expect:not-trusted"); if (t.range) c.cls("signed-range:inexact"); if (!chainOk(t)) c.cls("chain:not-anchored"); if (!consConfigured) c.cls("constraints:none"); else if (!consOk) c.cls("constraints:mismatch"); for (auto &k : t.cons) c.cls("constraint:" + k.how);
     bool trusted = ob.verifyRes == KSI_OK;
@@ -198,6 +198,13 @@ static void modeLookup(Dec &d, Case &c) {
         if (anyEq) VF_CHECK(c, res == KSI_OK && recIs(r, tm, h) && tm == q && member(tm, h), "C18:lookup:find-by-time:wrong", "findPublicationByTime did not return a publication of that time: " + c.desc);
         else VF_CHECK(c, res == KSI_OK && r == nullptr, "C18:lookup:find-by-time:phantom", "findPublicationByTime returned a record although none has that time: " + c.desc);
         KSI_PublicationRecord_free(r); r = nullptr;
+        // find by time AND imprint: every member of a tie must be found, a non-member with an existing time must not
+        for (size_t pi = 0; pi <= pubs.size() && !c.fail; pi++) { PubSpec want = pi < pubs.size() ? pubs[pi] : PubSpec{q, hashOf(11)}; bool isMember = member(want.time, want.hash);
+            KSI_PublicationData *pd = nullptr; KSI_PublicationRecord *probe = nullptr, *out = nullptr; KSI_Integer *ti = nullptr; KSI_DataHash *dh = nullptr; KSI_PublicationData_new(ctx, &pd); KSI_Integer_new(ctx, want.time, &ti); KSI_PublicationData_setTime(pd, ti); KSI_DataHash_fromImprint(ctx, want.hash.data(), want.hash.size(), &dh); KSI_PublicationData_setImprint(pd, dh);
+            KSI_PublicationRecord_new(ctx, &probe); KSI_PublicationRecord_setPublishedData(probe, pd); int rf = KSI_PublicationsFile_findPublication(pf, probe, &out); uint64_t t2; Bytes h2;
+            if (isMember) { c.cls("find:member"); VF_CHECK(c, rf == KSI_OK && recIs(out, t2, h2) && t2 == want.time && h2 == want.hash, "C18:lookup:find:member-not-found", "findPublication did not return the record with that time and imprint (record " + num((long long)pi) + "): " + c.desc); }
+            else { c.cls("find:non-member"); VF_CHECK(c, rf == KSI_OK && out == nullptr, "C18:lookup:find:phantom", "findPublication returned a record for a (time, imprint) pair that is not in the file: " + c.desc); }
+            KSI_PublicationRecord_free(out); KSI_PublicationRecord_free(probe); }
         // nearest (earliest not before)
         res = KSI_PublicationsFile_getNearestPublication(pf, qi_, &r); c.cls(anyGe ? "nearest:hit" : "nearest:miss");
         if (anyGe) VF_CHECK(c, res == KSI_OK && recIs(r, tm, h) && tm == minGe && member(tm, h), "C18:lookup:nearest:wrong", "getNearestPublication did not return the earliest publication not before the time (got " + (r && recIs(r, tm, h) ? num((long long)tm) : "none") + ", want " + num((long long)minGe) + "): " + c.desc);
